@@ -27,19 +27,32 @@ func propC08(c *Ctx) {
 	existsFn := w.Fn("jrpc2", "Error.Exists")
 	for _, name := range []string{"(*Client).Latest", "(*Client).httpPoll"} {
 		fn := w.Fn("jrpc2", name)
+		freg := NewRegion(fn) // the request and its tests may live in a helper (latestHeader)
+		var dos, exs []*ssa.Call
+		for _, ci := range freg.Calls() {
+			if call, ok := ci.(*ssa.Call); ok {
+				switch staticCallee(call) {
+				case do:
+					dos = append(dos, call)
+				case existsFn:
+					exs = append(exs, call)
+				}
+			}
+		}
 		for i, u := range callsToFn(fn, update) {
 			good := false
-			for _, d := range callsToFn(fn, do) {
+			for _, d := range dos {
 				e, _ := errResult(d)
 				isNil, _ := nilTestEdges(e)
 				var exF []Edge
-				for _, ex := range callsToFn(fn, existsFn) {
+				for _, ex := range exs {
+					if ex.Parent() != d.Parent() {
+						continue
+					}
 					_, f := boolEdges(ex)
 					exF = append(exF, f...)
 				}
-				r1, _ := reach(siteOf(d), isInstr(u), newCuts().addEdges(isNil))
-				r2, _ := reach(siteOf(d), isInstr(u), newCuts().addEdges(exF))
-				if !r1 && !r2 && dominatesInstr(d, u) {
+				if freg.OnlyThrough(d, u, isNil) && freg.OnlyThrough(d, u, exF) && freg.Dominates(d, u) {
 					good = true
 				}
 			}
